@@ -149,7 +149,13 @@ func makeInputDevice(d *Desc, name string) input.Device {
 	for i, s := range d.TwinNodes {
 		di := setEventName(fmt.Sprintf("event%d", 40+i), input.DeviceInfo{Name: strings.TrimSpace(name + " " + s)})
 		dev.Handlers = append(dev.Handlers, input.Handler{Name: s, DeviceInfo: di})
-		dev.AbsInfos[di.Event()] = axisInfosOf(d, s)
+		infos := axisInfosOf(d, s)
+		for _, tr := range d.TwinRanges {
+			if tr.Sub == s {
+				infos[evdev.EvCode(tr.Code)] = evdev.AbsInfo{Minimum: tr.Min, Maximum: tr.Max}
+			}
+		}
+		dev.AbsInfos[di.Event()] = infos
 	}
 	return dev
 }
